@@ -11,3 +11,91 @@ pub use crate::selection::Selection;
 pub use crate::ansi::{verif_merge_fragments, ANSIParser, AnsiString};
 pub use crate::util::{depends_on_items, escape_single_quote, inject_command, InjectContext};
 pub use crate::input::{parse_action_arg, parse_key_action, Input};
+pub use crate::header::Header;
+pub use crate::matcher::{Matcher, MatcherControl};
+pub use crate::previewer::Previewer;
+pub use crate::reader::{Reader, ReaderControl};
+pub use crate::spinlock::SpinLock;
+
+use std::sync::atomic::{AtomicBool, Ordering};
+use std::sync::Mutex;
+
+/// One trace record: (thread tag, point name, a, b).
+pub type TraceRec = (u64, &'static str, usize, usize);
+
+static TRACE_ON: AtomicBool = AtomicBool::new(false);
+lazy_static! {
+    static ref TRACE: Mutex<Vec<TraceRec>> = Mutex::new(Vec::new());
+    // (point name, hit number counted from 1 (0 = every hit), milliseconds, hits so far)
+    static ref DELAYS: Mutex<Vec<(&'static str, usize, u64, usize)>> = Mutex::new(Vec::new());
+}
+
+fn thread_tag() -> u64 {
+    use std::hash::{Hash, Hasher};
+    let mut h = std::collections::hash_map::DefaultHasher::new();
+    std::thread::current().id().hash(&mut h);
+    h.finish()
+}
+
+/// A trace point. Records (name, a, b) while tracing is on, then sleeps if a delay is configured
+/// for this hit of the point. Observes only; never changes what the caller computes.
+pub fn point(name: &'static str, a: usize, b: usize) {
+    if !TRACE_ON.load(Ordering::SeqCst) {
+        return;
+    }
+    TRACE.lock().unwrap().push((thread_tag(), name, a, b));
+    let mut sleep_ms = 0;
+    {
+        let mut delays = DELAYS.lock().unwrap();
+        for d in delays.iter_mut() {
+            if d.0 == name {
+                d.3 += 1;
+                if d.1 == 0 || d.1 == d.3 {
+                    sleep_ms = d.2;
+                }
+            }
+        }
+    }
+    if sleep_ms > 0 {
+        std::thread::sleep(std::time::Duration::from_millis(sleep_ms));
+    }
+}
+
+pub fn trace_start(delays: Vec<(&'static str, usize, u64)>) {
+    TRACE.lock().unwrap().clear();
+    *DELAYS.lock().unwrap() = delays.into_iter().map(|(n, k, ms)| (n, k, ms, 0)).collect();
+    TRACE_ON.store(true, Ordering::SeqCst);
+}
+
+pub fn trace_len() -> usize {
+    TRACE.lock().unwrap().len()
+}
+
+pub fn trace_snapshot() -> Vec<TraceRec> {
+    TRACE.lock().unwrap().clone()
+}
+
+pub fn trace_stop() -> Vec<TraceRec> {
+    TRACE_ON.store(false, Ordering::SeqCst);
+    DELAYS.lock().unwrap().clear();
+    std::mem::take(&mut *TRACE.lock().unwrap())
+}
+
+/// Run one session of the event loop on a held (never started) terminal. `on_ready` receives the
+/// sender of the loop's event channel before the loop starts, so the caller can inject events.
+pub fn run_session<F>(
+    options: &crate::SkimOptions,
+    source: Option<crate::SkimItemReceiver>,
+    on_ready: F,
+) -> Option<crate::SkimOutput>
+where
+    F: FnOnce(crate::event::EventSender),
+{
+    use tuikit::prelude::{Term, TermOptions};
+    let (tx, rx) = std::sync::mpsc::channel();
+    let term = std::sync::Arc::new(Term::with_options(TermOptions::default().hold(true)).unwrap());
+    let reader = crate::reader::Reader::with_options(options).source(source);
+    on_ready(tx.clone());
+    let mut model = crate::model::Model::new(rx, tx, reader, term, options);
+    model.start()
+}
